@@ -478,6 +478,9 @@ class MarkovNetwork(UndirectedGraph):
 
         graph_copy = nx.Graph(self.edges())
         for node in order:
+            if node not in graph_copy:
+                # A node without edges (the scratch graph is built from the edge list).
+                continue
             for edge in itertools.combinations(graph_copy.neighbors(node), 2):
                 graph_copy.add_edge(edge[0], edge[1])
                 edge_set.add(edge)
